@@ -1259,3 +1259,117 @@ class Interleaved(_CHarness):
 
 
 HARNESSES['interleaved'] = Interleaved
+
+
+# ===========================================================================
+# C20 (a'): concurrent registry operations are linearizable w.r.t. the dict model
+# ===========================================================================
+
+def _reg_model(state, op):
+  """Sequential reference: state = dict addr -> float | None."""
+  kind, a = op[0], op[1]
+  if kind == 'register':
+    state[a] = op[2]
+    return None
+  if kind == 'refresh':
+    if state.get(a, 0) is not None:
+      state[a] = max(state.get(a, 0), op[2])
+    return None
+  if kind == 'unregister':
+    state[a] = None
+    return None
+  return float(state.get(a, 0) or 0)
+
+
+class RegistryRace(_CHarness):
+  """params: init - list of ops applied sequentially first; progs - one list of
+  registry operations per thread.  Oracle: returned values and the final
+  registry content equal those of some interleaving of the programs on the
+  sequential dict model (linearizability by brute force)."""
+  name = 'registry_race'
+  max_steps = 4000
+
+  def __init__(self, init=(), progs=((), ()), mode='preempt'):
+    self.params = dict(init=[list(o) for o in init],
+                       progs=[[list(o) for o in p] for p in progs], mode=mode)
+    self.mode = mode
+    m = _m()
+    hooks.instrument(m.courier_utils.WorkerRegistry, extra=('data',))
+
+  def setup(self):
+    m = _m()
+    p = self.params
+    self.results = [[None] * len(prog) for prog in p['progs']]
+    self.final = None
+
+    def apply(reg, op):
+      kind, a = op[0], op[1]
+      if kind == 'register':
+        return reg.register(a, op[2])
+      if kind == 'refresh':
+        return reg.refresh(a, op[2])
+      if kind == 'unregister':
+        return reg.unregister(a)
+      return reg.get(a)
+
+    def body():
+      reg = m.courier_utils.WorkerRegistry()
+      for op in p['init']:
+        apply(reg, op)
+
+      def run(i):
+        for k, op in enumerate(p['progs'][i]):
+          r = apply(reg, op)
+          self.results[i][k] = float(r) if r is not None else None
+      ts = [vthreading.Thread(target=run, args=(i,), name=f'reg{i}')
+            for i in range(len(p['progs']))]
+      for t in ts:
+        t.start()
+      for t in ts:
+        t.join()
+      self.final = {k: v for k, v in object.__getattribute__(reg, 'data').items()}
+    return body
+
+  def outcome(self, res):
+    return (res.failure and res.failure[0], repr(self.results), repr(self.final))
+
+  def _sequential_outcomes(self):
+    p = self.params
+    progs = p['progs']
+    outs = set()
+
+    def rec(pos, state, results):
+      if all(pos[i] == len(progs[i]) for i in range(len(progs))):
+        outs.add((repr(results), repr(sorted(state.items(), key=str))))
+        return
+      for i in range(len(progs)):
+        if pos[i] < len(progs[i]):
+          st2 = dict(state)
+          r = _reg_model(st2, progs[i][pos[i]])
+          res2 = [list(x) for x in results]
+          res2[i][pos[i]] = r
+          pos2 = list(pos)
+          pos2[i] += 1
+          rec(pos2, st2, res2)
+    state = {}
+    for op in p['init']:
+      _reg_model(state, op)
+    rec([0] * len(progs), state, [[None] * len(x) for x in progs])
+    return outs
+
+  def check(self, res):
+    p = self.params
+    if res.failure:
+      kind, info = res.failure
+      return [(f'C20:registry-race:{kind}{_stuck(kind, info)}',
+               {'failure': kind, 'info': _info(info), 'progs': p['progs']})]
+    got = (repr(self.results), repr(sorted(self.final.items(), key=str)))
+    if got not in self._sequential_outcomes():
+      kinds = sorted({o[0] for prog in p['progs'] for o in prog})
+      return [(f'C20:registry-race:not-linearizable:ops={"+".join(kinds)}',
+               {'init': p['init'], 'progs': p['progs'], 'results': self.results,
+                'final': repr(self.final)})]
+    return []
+
+
+HARNESSES['registry_race'] = RegistryRace
